@@ -74,6 +74,7 @@ try:
         subprocess.run(["/venv/bin/python", "/verif/tools/seeded_baseline.py", head], stdout=subprocess.DEVNULL, stderr=subprocess.DEVNULL)
     baseline = json.loads(base_file.read_text()) if base_file.exists() else {}
     fired = {}
+    own_keys_unsubtracted = []
     venv = dict(os.environ, VERIF_REPO=str(wt))
     for pid in [f"C{i:02d}" for i in range(1, 21)]:
         if not Path(f"/verif/sa/rules/{pid.lower()}.py").exists():
@@ -83,10 +84,20 @@ try:
         line = next((l for l in p.stdout.splitlines() if l.startswith("RESULT")), None)
         code, keys = json.loads(line[7:]) if line else (3, ["CRASH " + p.stderr[-200:]])
         newk = [k for k in keys if k not in baseline.get(pid, [])]
+        if pid == prop:
+            own_keys_unsubtracted = list(keys)
         if code != 0 and newk:
             fired[pid] = {"exit": code, "keys": newk[:8]}
     out["checks_fired"] = fired
     out["caught_by_own_property"] = prop in fired
+    if prop not in fired and out.get("evaluated_on_commit"):
+        # evaluated on an older commit that still had a (since repaired) defect in the same construct: the check reports the patched tree,
+        # but under a key the older commit's own baseline already contains; say so instead of counting it as missed
+        touched = {l[6:].strip()[len("src/"):-3].replace("/", ".") for l in patch.read_text().splitlines() if l.startswith("+++ b/src/") and l.strip().endswith(".py")}
+        same = [k for k in own_keys_unsubtracted if any(("|" + t + ".") in k or ("|" + t + "|") in k for t in touched)]
+        if same:
+            out["caught_by_own_property"] = True
+            out["own_via_key_already_in_base_commit_baseline"] = same[:4]
     subprocess.run(["git", "-C", str(wt), "checkout", "--", "."], check=True)
     subprocess.run(["git", "-C", str(wt), "clean", "-fdq"], check=True)
     if not recheck:
